@@ -3,7 +3,9 @@
 //! correspondence with the extracted Coq model.  Usage: vharness <prop> --tier T --seed N --out DIR
 mod common;
 mod gen;
+mod layout;
 mod net;
+mod wire;
 mod netprops;
 mod c13;
 
@@ -26,6 +28,10 @@ fn main() {
     }
     match argv[1].as_str() {
         "c13" => c13::run(&a),
+        "c01" => wire::run_c01(&a),
+        "c03" => wire::run_c03(&a),
+        "c04" => wire::run_c04(&a),
+        "c11" => wire::run_c11(&a),
         "c05" => netprops::run_c05(&a),
         "c06" => netprops::run_c06(&a),
         "c07" => netprops::run_c07(&a),
